@@ -28,13 +28,64 @@ def _alarm(signum, frame):
 def base_gate(b, custom_m=None, kk=None):
     from orquestra.quantum.circuits import builtin_gate_by_name
 
+    if b["custom"] and b["np"] > 0:
+        k = kk if kk is not None else b["kk"]
+        return param_custom_def()(*[k[j] * math.pi / 2 if not isinstance(k[j], float) else k[j] for j in range(b["np"])])
     if b["custom"]:
         return cc.custom_def(b["name"], custom_m)()
     g = builtin_gate_by_name(b["name"])
     if b["np"] > 0:
         k = kk if kk is not None else b["kk"]
-        g = g(*[k[j] * math.pi / 2 for j in range(b["np"])])
+        g = g(*[k[j] * math.pi / 2 if not isinstance(k[j], float) else k[j] for j in range(b["np"])])     # floats: off-grid angles, taken as they are
     return g
+
+
+_PC = []
+
+
+def param_custom_def():
+    import sympy
+    from orquestra.quantum.circuits import CustomGateDefinition
+
+    if not _PC:
+        a = sympy.Symbol("a")
+        _PC.append(CustomGateDefinition("PC", sympy.Matrix([[1, 0], [0, sympy.exp(sympy.I * a)]]), (a,)))
+    return _PC[0]
+
+
+def law_holds(mod, M, Mp):
+    import scipy.linalg
+
+    if mod["m"] == "dagger":
+        return close(M, Mp.conj().T, 1e-8), "conjugate transpose"
+    if mod["m"] == "controlled":
+        d = Mp.shape[0] * (2 ** mod["c"] - 1)
+        want = np.eye(d + Mp.shape[0], dtype=complex)
+        want[d:, d:] = Mp
+        return close(M, want, 1e-8), "identity on the first %d basis states followed by the original matrix" % d
+    if mod["m"] == "power":
+        e = mod["e"]
+        if e[1] == 1:
+            want = np.linalg.matrix_power(Mp, e[0]) if e[0] >= 0 else np.linalg.matrix_power(np.linalg.inv(Mp), -e[0])
+            return close(M, want, 1e-8), "repeated product"
+        return close(np.linalg.matrix_power(M, e[1]), np.linalg.matrix_power(Mp, e[0]) if e[0] >= 0 else np.linalg.inv(Mp), 1e-7), "a matrix whose %d-th power is the original" % e[1]
+    return close(M, scipy.linalg.expm(Mp), 1e-8), "matrix exponential"
+
+
+def k1_applies_real(g):
+    """a fractional power of a gate with eigenvalue -1 somewhere under g (real gate objects, any parameter values)"""
+    from orquestra.quantum.circuits._gates import ControlledGate, Dagger, Exponential, Power
+
+    if isinstance(g, Power):
+        if abs(g.exponent - round(g.exponent)) > 1e-12 and np.any(np.abs(np.linalg.eigvals(np_matrix(g.wrapped_gate)) + 1) < 1e-9):
+            return True
+        return k1_applies_real(g.wrapped_gate)
+    if isinstance(g, (ControlledGate, Dagger, Exponential)):
+        return k1_applies_real(g.wrapped_gate)
+    return False
+
+
+OFFGRID = [(0.3, 1.1, 2.2), (1.8, 0.0, 0.7), (4.4, 5.9, 1.0)]
 
 
 def expo(e):
@@ -182,6 +233,29 @@ def check_case(ctx, c):
                 out.append(("KNOWN:K1", "%s: dagger of a fractional power of a gate with eigenvalue -1 is (g^dagger)^e, not the adjoint" % desc))
             else:
                 out.append(("law:" + mod["m"], "%s: matrix is not the %s of the matrix of %s" % (desc, law, chain_str(c["base"], c["chain"][:-1]))))
+        # the same law at parameter values OFF the grid of the exact ring (the statement is about every real parameter): judged
+        # on the implementation's own matrices, for chains short enough to stay inside the time limit
+        if c["base"]["np"] > 0 and len(c["chain"]) <= 2 and law_ok:
+            for og in OFFGRID[: 2 if ctx.tier == "quick" else 3]:
+                kk = [float(x) for x in og]
+                g0o = base_gate(c["base"], cm, kk=kk)
+                preo = apply_chain(g0o, c["chain"][:-1])
+                go = apply_chain(preo, c["chain"][-1:])
+                try:
+                    Mo, Mpo = np_matrix(go), np_matrix(preo)
+                except Timeout:
+                    raise
+                except Exception as ex:
+                    if any(m["m"] == "exp" for m in c["chain"][:-1]) and isinstance(ex, (IndexError, NotImplementedError)):
+                        continue
+                    out.append(("offgrid:matrix-raises", "%s at parameters %s: matrix raised %s: %s" % (desc, og[: c["base"]["np"]], type(ex).__name__, str(ex)[:150])))
+                    break
+                ok_, law_ = law_holds(mod, Mo, Mpo)
+                if not ok_:
+                    if mod["m"] == "dagger" and k1_applies_real(preo):
+                        continue
+                    out.append(("offgrid:law:" + mod["m"], "%s at parameters %s: matrix is not the %s of the matrix of the gate it was applied to" % (desc, og[: c["base"]["np"]], law_)))
+                    break
         # exact comparison with the specification's meaning for ring trees
         if c["ring"]:
             S = mat(c["sem"])
